@@ -26,6 +26,8 @@ pub trait Property {
     const STREAM: u64;
     type Scn: Serialize + DeserializeOwned + Clone;
     fn gen(seed: u64) -> (Self::Scn, &'static str, Option<String>);
+    /// Rare, expensive scenarios (very large files); a fixed small number per batch.
+    fn gen_jumbo(seed: u64) -> (Self::Scn, &'static str, Option<String>);
     fn run(s: &Self::Scn, record: bool) -> RunResult;
     fn shrink(s: &Self::Scn) -> Vec<Self::Scn>;
     fn stacks(s: &Self::Scn) -> Vec<String>;
@@ -44,6 +46,9 @@ impl Property for C13 {
     type Scn = pnm::PnmScenario;
     fn gen(seed: u64) -> (Self::Scn, &'static str, Option<String>) {
         pnm::gen_scenario(seed)
+    }
+    fn gen_jumbo(seed: u64) -> (Self::Scn, &'static str, Option<String>) {
+        pnm::gen_jumbo(seed)
     }
     fn run(s: &Self::Scn, record: bool) -> RunResult {
         pnm::run(s, record)
@@ -91,6 +96,9 @@ impl Property for C14 {
     type Scn = obj::ObjScenario;
     fn gen(seed: u64) -> (Self::Scn, &'static str, Option<String>) {
         obj::gen_scenario(seed)
+    }
+    fn gen_jumbo(seed: u64) -> (Self::Scn, &'static str, Option<String>) {
+        obj::gen_jumbo(seed)
     }
     fn run(s: &Self::Scn, record: bool) -> RunResult {
         obj::run(s, record)
